@@ -184,6 +184,59 @@ Verdict evalWith(Ctx& c, EvalMode mode) {
   return pbt::pass();
 }
 
+// ---- large lazily generated sets: products of base sets and power sets whose cardinality approaches and exceeds every
+// machine bound (2^28 .. 2^80).  Nothing is enumerated: the expected outcome follows from the sizes alone, and the library
+// must give that value or fail with a documented resource-limit error - never another value.
+Verdict largeLazyProp(Ctx& c) {
+  Gamma G;
+  const int n1 = c.ipick(2, 20), n2 = c.ipick(1, 18);
+  auto base = [&](const char* name, int n) { Global x; x.name = name; x.isBase = true; x.type = Ty::Set(Ty::Base(name)); std::vector<Val> v; for (int i = 1; i <= n; ++i) v.push_back(Val::Int(i)); x.value = Val::Set(v); G.globals.push_back(x); };
+  base("X1", n1); base("X2", n2);
+  const int k = c.ipick(2, 4);
+  std::vector<EP> fs; long double size = 1;
+  for (int i = 0; i < k; ++i) {
+    const int w = c.ipick(0, 3);
+    const char* name = (w & 1) ? "X2" : "X1"; const int n = (w & 1) ? n2 : n1;
+    if (w >= 2) { fs.push_back(mk(TID::BOOLEAN, {mkName(TID::ID_GLOBAL, name)})); size *= std::pow(2.0L, n); }
+    else { fs.push_back(mkName(TID::ID_GLOBAL, name)); size *= n; }
+  }
+  EP P = mk(TID::DECART, fs);
+  const int form = c.ipick(0, 4);
+  EP e; bool expectBool = true, expectTruth = false;
+  switch (form) {
+    case 0: e = mk(TID::CARD, {P}); expectBool = false; break;
+    case 1: e = mk(TID::EQUAL, {P, mk(TID::LIT_EMPTYSET)}); expectTruth = false; break;
+    case 2: e = mk(TID::FORALL, {mkName(TID::ID_LOCAL, "t"), P, mk(TID::EQUAL, {mkInt(1), mkInt(2)})}); expectTruth = false; break;
+    case 3: e = mk(TID::GREATER, {mk(TID::CARD, {P}), mkInt(0)}); expectTruth = true; break;
+    default: e = mk(TID::EXISTS, {mkName(TID::ID_LOCAL, "t"), P, mk(TID::EQUAL, {mkInt(1), mkInt(1)})}); expectTruth = true; break;
+  }
+  const bool ascii = c.coin();
+  PrintOpts po; po.syn = ascii ? Syn::ASCII : Syn::MATH;
+  const std::string text = render(e, po);
+  c.show << "|X1|=" << n1 << " |X2|=" << n2 << " size=" << static_cast<double>(size) << " expr " << text;
+  const bool huge = size >= 268435455.0L;  // 2^28-1, the documented "infinite" cardinality
+  c.nontrivial = huge;
+  c.label(huge ? (size >= 2147483648.0L ? "large:beyond-2^31" : "large:between-2^28-and-2^31") : "large:below-2^28");
+  c.exec();
+  std::string failure;
+  const auto res = pbt::inChild([&]() -> Verdict {
+    const Run got = runLib(G, text, ascii ? rl::Syntax::ASCII : rl::Syntax::MATH, true);
+    if (!got.ok) {
+      bool limit = false; for (auto code : got.errs) limit |= isLimitCode(code);
+      if (!limit) return pbt::fail("unexpected-error", "'" + text + "' fails with" + got.errText + " which is no resource-limit error");
+      return pbt::discard("limit");
+    }
+    if (expectBool) { if (!got.isBool || got.b != expectTruth) return pbt::fail("wrong-value", "'" + text + "' = " + (got.isBool ? (got.b ? "true" : "false") : got.v.str()) + " but the set-theoretic value is " + (expectTruth ? "true" : "false")); }
+    else { if (got.isBool || got.v.k != Val::INT || static_cast<long double>(got.v.i) != size) return pbt::fail("wrong-value", "'" + text + "' = " + (got.isBool ? "a truth value" : got.v.str()) + " but the cardinality is " + std::to_string(static_cast<double>(size))); }
+    return pbt::pass();
+  }, 20);
+  if (res.status == pbt::ChildResult::TIMEOUT || res.status == pbt::ChildResult::STARVED) { c.count("inconclusive-timeout"); return pbt::pass(); }
+  if (res.status == pbt::ChildResult::CRASH) return pbt::fail("crash", "evaluation of '" + text + "' crashed: " + res.crashInfo);
+  if (res.verdict.kind == Verdict::DISCARD) { c.label("large:resource-limit-reported"); return pbt::pass(); }
+  if (res.verdict.kind == Verdict::PASS) c.label("large:value-returned");
+  return res.verdict;
+}
+
 // ---- the same question through an interpreted model: RSModel::Calculations().Calculate + Values().SDataFor / StatementFor ----
 Verdict evalProp(Ctx& c) { return evalWith(c, GENERAL); }
 Verdict evalReuseProp(Ctx& c) { return evalWith(c, NAME_REUSE); }
@@ -299,6 +352,7 @@ int main(int argc, char** argv) {
   props.push_back({"evaluate", evalProp, 2500, 40000, false, false, "type-directed expressions x contexts x data; 2-4 renderings each"});
   props.push_back({"evaluate_name_reuse", evalReuseProp, 1200, 20000, false, false, "the same with a variant generator: binders re-declare names whose earlier scope has ended (sibling binders, domains of enumerated / tuple declarations), Pr with repeated / permuted index lists"});
   props.push_back({"evaluate_imperative_chains", evalImperativeProp, 800, 12000, false, false, "imperative constructors of 2-5 blocks in which every domain / assigned value / guard is built from the variables of earlier blocks"});
+  props.push_back({"large_lazy_sets", largeLazyProp, 600, 8000, false, false, "products of base sets (up to 20 elements) and their power sets with 2^2 .. 2^80 elements: cardinality, emptiness, quantification - the exact value or a resource-limit error"});
   props.push_back({"model_calculate", modelProp, 1200, 20000, false, false, "the same content as an RSModel: Calculate + SDataFor / StatementFor vs the reference value"});
   return pbt::main(argc, argv, "C01", props);
 }
